@@ -65,6 +65,19 @@ fn main() {
                     app(&s)
                 )
             }
+            "DS" => {
+                let bs: usize = t[1].parse().unwrap();
+                std::fs::write(&p_old, unhex(t[3])).unwrap();
+                std::fs::write(&p_new, unhex(t[4])).unwrap();
+                let cks = compute_checksums(&p_old, bs).unwrap();
+                let s = generate_delta_streaming(&p_new, &cks, bs).unwrap();
+                let _ = std::fs::remove_file(&p_out);
+                let a = match apply_delta(&p_old, &s, &p_out) {
+                    Ok(_) => hex(&std::fs::read(&p_out).unwrap()),
+                    Err(_) => "ERR".into(),
+                };
+                format!("str={} apps={}", ops_str(&s), a)
+            }
             "R" => {
                 let bs: usize = t[1].parse().unwrap();
                 let data = unhex(t[2]);
